@@ -388,3 +388,60 @@ Proof.
     + destruct a; try err_ok; destruct c; try err_ok; destruct d; err_ok.
   - (* hasData *) eapply orel_impl_eq; [apply af_hasData|]. reflexivity.
 Qed.
+
+(* ---- the converse of fn_arities_table: the regenerated table holds no name the Spec does not specify ---- *)
+
+Definition arities_eqb (a c : list N) : bool := if list_eq_dec N.eq_dec a c then true else false.
+
+(* the finite check on soyhtml.Funcs as tablegen reads it on this run: every entry is a function of
+   Spec/Expr.v with the Spec's arities.  A function added to (or an arity changed in) the Go table
+   makes this computation return false. *)
+Lemma html_funcs_specified :
+  forallb (fun p => match fn_of_name (fst p) with
+                    | Some f => arities_eqb (snd p) (map N.of_nat (fn_arities f))
+                    | None => false
+                    end) html_funcs = true.
+Proof. vm_compute. reflexivity. Qed.
+
+Lemma fn_of_name_sound name f : fn_of_name name = Some f -> fn_name f = name.
+Proof.
+  unfold fn_of_name. intros H. apply find_some in H as [_ H].
+  destruct (bstr_eqb_spec name (fn_name f)); [congruence | discriminate].
+Qed.
+
+Lemma fn_of_name_complete f : fn_of_name (fn_name f) = Some f.
+Proof. destruct f; vm_compute; reflexivity. Qed.
+
+Lemma assoc_s_In {A} k (l : list (bstr * A)) v : assoc_s k l = Some v -> In (k, v) l.
+Proof.
+  induction l as [|[k' v'] l IH]; cbn [assoc_s]; [discriminate|].
+  destruct (bstr_eqb_spec k k') as [->|Hne]; [intros H; injection H as ->; left; reflexivity | right; auto].
+Qed.
+
+Theorem function_table_complete name ar : func_arities name = Some ar ->
+  exists f, fn_of_name name = Some f /\ fn_name f = name /\ ar = map N.of_nat (fn_arities f).
+Proof.
+  unfold func_arities. intros H. apply assoc_s_In in H.
+  pose proof html_funcs_specified as Hs. rewrite forallb_forall in Hs. specialize (Hs _ H). cbn [fst snd] in Hs.
+  destruct (fn_of_name name) as [f|] eqn:Hf; [|discriminate].
+  exists f. split; [reflexivity|]. split; [apply fn_of_name_sound; exact Hf|].
+  unfold arities_eqb in Hs. destruct (list_eq_dec N.eq_dec ar (map N.of_nat (fn_arities f))); [assumption | discriminate].
+Qed.
+
+(* every callable name of the regenerated table, on every argument list, behaves as the Spec of the
+   function it names *)
+Theorem apply_rel_table name ar args : func_arities name = Some ar ->
+  exists f, fn_of_name name = Some f /\ ar = map N.of_nat (fn_arities f) /\
+            orel (r <- apply_fn_spec f args ;; Ok (fres_of r)) (apply_func name args).
+Proof.
+  intros H. destruct (function_table_complete name ar H) as (f & Hf & Hn & Har).
+  exists f. split; [exact Hf|]. split; [exact Har|]. rewrite <- Hn. apply apply_rel.
+Qed.
+
+Theorem function_table_spec name ar args : func_arities name = Some ar ->
+  exists f, fn_of_name name = Some f /\ fn_name f = name /\ ar = map N.of_nat (fn_arities f) /\
+            orel (r <- apply_fn_spec f args ;; Ok (fres_of r)) (apply_func name args).
+Proof.
+  intros H. destruct (apply_rel_table name ar args H) as (f & Hf & Har & Hrel).
+  exists f. repeat split; try assumption. apply fn_of_name_sound; exact Hf.
+Qed.
